@@ -9,7 +9,7 @@ import drive
 import p_filter as PF
 from codec import sansldap
 
-LEAN_TARGETS = ["Verif.Props.C13", "Verif.Props.Ties"]
+LEAN_TARGETS = ["Verif.Props.C13", "Verif.Props.Ties", "Verif.Props.C13More"]
 LEVEL = "proof"
 ASSUMPTIONS = [
     "domain (WFText): RFC 4512 attribute descriptions / matching rules, non-empty and/or lists, substrings with at least one and no empty "
@@ -20,10 +20,11 @@ SAFE = set(range(0x20, 0x7F)) - {0x28, 0x29, 0x2A, 0x5C}
 
 
 def check_escaped(f, text: str):
-    """every special octet of every value is escaped: the text uses only RFC 4515 syntax"""
-    b = text.encode("utf-8")
-    if any(x >= 0x80 or x < 0x20 or x == 0x7F for x in b):
-        return "text form contains a raw control or non-ASCII octet"
+    """the text uses only RFC 4515 syntax (an independent recogniser of the grammar: RFC 4512 attribute descriptions and oids, values made
+    of `normal` characters — raw UTF-8 included — and \\xx escapes; NUL, parentheses, asterisk, backslash and octets that are not
+    well-formed UTF-8 must be escaped)"""
+    if not PF.rfc4515_sentence(text):
+        return "text form is not derivable from the RFC 4515 grammar (an unescaped special octet, or a malformed component)"
     return None
 
 
